@@ -93,6 +93,55 @@ private theorem decDigits_spec : ∀ (fuel n : Nat), n < fuel →
 theorem decBytes_spec (n : Nat) : decBytes n ≠ [] ∧ (decBytes n).all isDigit = true ∧ digitsVal (decBytes n) = n :=
   decDigits_spec (n + 1) n (by omega)
 
+private theorem decDigits_head : ∀ (fuel n : Nat), n < fuel → 0 < n → (decDigits fuel n).head? ≠ some 48
+  | 0, n, h, _ => by omega
+  | fuel + 1, n, hlt, hpos => by
+    rw [decDigits]
+    split
+    · rename_i h
+      simp only [List.head?_cons, ne_eq, Option.some.injEq]
+      intro hc
+      have := congrArg UInt8.toNat hc
+      rw [digit_toNat h] at this
+      simp at this; omega
+    · rename_i h
+      have hne := (decDigits_spec fuel (n / 10) (by omega)).1
+      have hh : (decDigits fuel (n / 10) ++ [UInt8.ofNat (48 + n % 10)]).head? = (decDigits fuel (n / 10)).head? := by
+        cases hx : decDigits fuel (n / 10) with
+        | nil => exact absurd hx hne
+        | cons a t => rfl
+      rw [hh]
+      exact decDigits_head fuel (n / 10) (by omega) (by omega)
+
+/-- The node's rendering is canonical: digits only, no leading zero. -/
+theorem isCanonicalNumeral_decBytes (n : Nat) : isCanonicalNumeral (decBytes n) = true := by
+  obtain ⟨h1, h2, _⟩ := decBytes_spec n
+  unfold isCanonicalNumeral
+  have he : (decBytes n).isEmpty = false := by
+    cases h : decBytes n with
+    | nil => exact absurd h h1
+    | cons => rfl
+  rw [he, h2]
+  by_cases hz : n = 0
+  · subst hz; decide
+  · have := decDigits_head (n + 1) n (by omega) (by omega)
+    have : ((decBytes n).head? != some 48) = true := by
+      simp only [bne_iff_ne, ne_eq]; exact this
+    simp [this]
+
+/-- `hex.EncodeToString` yields lower-case hex only. -/
+theorem isLowerHex_encodeHex (bs : Bytes) : isLowerHex (encodeHex bs) = true := by
+  have hd : ∀ n, n < 16 → ((hexVal (hexDigit n)).isSome && !(decide (65 ≤ (hexDigit n).toNat) && decide ((hexDigit n).toNat ≤ 70))) = true := by
+    decide
+  unfold isLowerHex encodeHex
+  rw [List.all_flatMap]
+  apply List.all_eq_true.mpr
+  intro b _
+  have hb : b.toNat < 256 := b.toNat_lt
+  simp only [List.all_cons, List.all_nil, Bool.and_true]
+  rw [hd _ (by omega), hd _ (by omega)]
+  rfl
+
 /-- The node's canonical decimal rendering of `n` is read back as `n`. -/
 theorem parseNat_decBytes (n : Nat) : parseNat (decBytes n) = some n := by
   obtain ⟨h1, h2, h3⟩ := decBytes_spec n
